@@ -138,6 +138,12 @@ class Acceptor:
         self.weak_prev = {}
         self.weak_grow = {}
         self.gsite_by_name = {g['name']: g for g in self.ix.gsites}
+        # entry / exit pseudo states (C09): their sites
+        self.pseudo_sites = set()
+        for m in self.ix.order:
+            for sn, st in m['states'].items():
+                if st['kind'] in ('entry_pt', 'exit_pt'):
+                    self.pseudo_sites.add('%s.%s' % (m['name'], sn))
         # rows whose source is an exit pseudo state (C09): their sites
         self.exit_row_sites = set()
         for m in self.ix.order:
@@ -185,6 +191,21 @@ class Acceptor:
         tags = set(tags)
         if self.in_round is not None:
             tags.add('C10')         # the expectation belongs to a completion step (fires on entry, chain runs on)
+        if self.threw:
+            tags.add('C12')         # first divergence after a contained exception in this operation: the state it left behind
+        if got is not None and self.pseudo_sites:
+            if got.k in ('EN', 'EX') and got.site in self.pseudo_sites:
+                tags.add('C09')     # a pseudo state entered / left where the statement does not allow it
+            elif got.k == 'SNAP':
+                vis = [x for x in got.raw.split(' ') if x.startswith('VIS=')]
+                shown = set(vis[0][4:].split(',')) if vis else set()
+                active = set()
+                for root in self.inst.values():
+                    for mi in root.all():
+                        if mi.is_active_instance():
+                            active.update('%s.%s' % (mi.name, a) for a in mi.active if a)
+                if (shown & self.pseudo_sites) - active:
+                    tags.add('C09')     # a pseudo state is shown active at quiescence that should have been left
         # classify re-entrancy / duplicate dispatch: the unexpected record belongs to an occurrence
         # that is pending on a machine that is still inside a step, or that was already dispatched
         if got is not None and getattr(got, 'id', -1) >= 0 and got.k in ('G', 'A', 'EN', 'EX', 'NT'):
@@ -316,6 +337,10 @@ class Acceptor:
         if got is None or got.k != kind or got.site != site:
             if got is not None and got.k in ('G', 'A') and got.site.rsplit('.', 1)[0] in self.exit_row_sites:
                 tags = set(tags) | {'C09'}      # a row leaving an exit pseudo state ran where it was not expected
+            if got is not None and mi is not None and got.k in ('G', 'A', 'EX') and got.m is not None:
+                gm = got.m.split(':')[-1]
+                if gm in self.ix.depth and self.ix.depth[gm] < self.ix.depth[mi.name]:
+                    tags = set(tags) | {'C07'}      # an outer level acts where the inner level was to be asked first
             if got is not None and got.k == 'NT' and kind != 'NT':
                 tags = set(tags) | {'C06'}      # no_transition although something matched (C06 'exactly when')
                 if mi is not None and got.m.split(':')[-1] != mi.name:
